@@ -336,9 +336,9 @@ func (s *Store) Len() int {
 // LatestIndexTerm returns the index and term of the most recent
 // snapshot in the Store.
 func (s *Store) LatestIndexTerm() (uint64, uint64, error) {
-	if err := s.mrsw.BeginRead(); err != nil {
-		return 0, 0, err
-	}
+	// Wait for any reap in progress: a half-reaped directory cannot be
+	// scanned, and reaping never changes the newest index and term.
+	s.mrsw.BeginReadBlocking()
 	defer s.mrsw.EndRead()
 
 	sset, err := s.catalog.Scan(s.dir)
